@@ -28,7 +28,7 @@ fn gen_rules(rng: &mut Rng) -> Vec<RuleSpec> {
                 Some(m)
             };
             let headers = (0..rng.below(3)).map(|i| ["x-a", "content-type", "x-b"][i].to_owned()).collect();
-            ((*rng.pick(&pats)).to_owned(), rng.chance(1, 6), origins, methods, headers, *rng.pick(&[60u64, 3600, 1]))
+            ((*rng.pick(&pats)).to_owned(), rng.chance(1, 6), origins, methods, headers, *rng.pick(&[60u64, 3600, 1, 0, 16_777_217, 34_560_001, 63_072_001, 4_294_967_297, 9_007_199_254_740_993, 18_446_744_073_709_551_615]))
         })
         .collect()
 }
@@ -79,6 +79,9 @@ impl Group for Decisions {
             fixed(&[("/page*", "https://third.test"), ("/page", "https://other.test")], 0),
             fixed(&[("/api/x", "https://other.test"), ("/api/x*", "https://third.test"), ("/api/*", "https://third.test")], 1),
             fixed(&[("/api/deep/y*", "https://third.test"), ("/api/deep/*", "https://other.test")], 2),
+            // preflights report the configured max-age exactly, however large (400 days + 1 s; 2^53 + 1 s)
+            fixed(&[("/page", "https://other.test")], 0).replace("!60 ", "!34560001 ").replace("!60]", "!34560001]"),
+            fixed(&[("/page", "https://other.test")], 0).replace("!60 ", "!9007199254740993 ").replace("!60]", "!9007199254740993]"),
         ];
         v.extend((0..n)
             .map(|_| {
